@@ -71,6 +71,22 @@ static void do_str(char *line)
 	free(hex);
 }
 
+static void do_shape(void)
+{
+	static int ctx[] = {0, 0x644, 0x627, 0x621, 0x41, 0x200d, 0x200c, 0x640, 0x64b, 0x6cc};
+	int c, i, j;
+	for (c = 0x5f0; c <= 0x700; c++)
+		for (i = 0; i < LEN(ctx); i++)
+			for (j = 0; j < LEN(ctx); j++)
+				printf("shape cur=%x prev=%x next=%x out=%x\n", c, ctx[i], ctx[j], uc_cshape(c, ctx[i], ctx[j]));
+	for (c = 0x2000; c <= 0x2010; c++)
+		for (i = 0; i < LEN(ctx); i++)
+			for (j = 0; j < LEN(ctx); j++)
+				printf("shape cur=%x prev=%x next=%x out=%x\n", c, ctx[i], ctx[j], uc_cshape(c, ctx[i], ctx[j]));
+	for (i = 0; i < LEN(achars); i++)
+		printf("shape cur=%x prev=0 next=0 out=%x row=%d\n", achars[i].c, uc_cshape(achars[i].c, 0, 0), i);
+}
+
 int main(int argc, char *argv[])
 {
 	static char line[1 << 16];
@@ -78,6 +94,10 @@ int main(int argc, char *argv[])
 		unsigned lo = argc > 2 ? strtoul(argv[2], NULL, 16) : 1;
 		unsigned hi = argc > 3 ? strtoul(argv[3], NULL, 16) : 0x10ffff;
 		do_cp(lo, hi);
+		return 0;
+	}
+	if (argc > 1 && !strcmp(argv[1], "shape")) {
+		do_shape();
 		return 0;
 	}
 	while (fgets(line, sizeof(line), stdin)) {
